@@ -133,6 +133,18 @@ def gen_types(w):
     w.same("xproxy_wrapper<int>", "xclosure_wrapper<int>", R, "xproxy_wrapper", "scalar -> closure wrapper", "int")
     w.same("decltype(proxy_wrapper(rv<Proxy>()))", "xproxy_wrapper_impl<Proxy>", R, "proxy_wrapper", "return type", "Proxy")
     w.must_hold("std::is_base_of<Proxy, xproxy_wrapper<Proxy>>::value", R, "xproxy_wrapper", "derives from the proxy", "Proxy")
+    # an lvalue proxy is wrapped by reference (writes through the wrapper reach the original), only an rvalue is taken over
+    w.same("decltype(proxy_wrapper(lv<Proxy>()))", "xclosure_wrapper<Proxy&>", R, "proxy_wrapper", "lvalue class proxy -> aliasing wrapper", "Proxy&")
+    w.same("decltype(proxy_wrapper(clv<Proxy>()))", "xclosure_wrapper<const Proxy&>", R, "proxy_wrapper", "const lvalue class proxy -> aliasing wrapper", "const Proxy&")
+    w.same("decltype(proxy_wrapper(lv<int>()))", "xclosure_wrapper<int&>", R, "proxy_wrapper", "lvalue scalar -> aliasing wrapper", "int&")
+    # real()/imag() of a plain real number: an lvalue is handed back itself, an rvalue by value (a reference to it would dangle)
+    for fn_ in ("forward_real", "real"):
+        w.same("decltype(%s(rv<double>()))" % fn_, "double", R, fn_, "real rvalue -> owned value", "double&&")
+        w.same("decltype(%s(lv<double>()))" % fn_, "double&", R, fn_, "real lvalue -> the argument itself", "double&")
+        w.same("decltype(%s(clv<double>()))" % fn_, "const double&", R, fn_, "const real lvalue -> the argument itself", "const double&")
+    for fn_ in ("forward_imag", "imag"):
+        w.same("decltype(%s(rv<double>()))" % fn_, "double", R, fn_, "imaginary part of a real number is a value", "double&&")
+        w.same("decltype(%s(lv<double>()))" % fn_, "double", R, fn_, "imaginary part of a real number is a value", "double&")
     w.same("decltype(&lv<xbitset_reference<xdynamic_bitset<std::uint64_t>, false>>())", "xclosure_pointer<xbitset_reference<xdynamic_bitset<std::uint64_t>, false>>",
            R, "xbitset_reference::operator&", "pointer-like object holding the same bit reference", "uint64 blocks")
     # forward_sequence
@@ -537,6 +549,32 @@ def rule_bitref(rep):
     for i in tmp.instances:
         if i["function"].startswith("xbitset_reference"):
             rep.instances.append(i)
+    # both the mutable and the const bit reference designate the block inside the container: the member that holds it is a reference (a const reference that
+    # stores the word by value is a snapshot - it, its copies and &ref go stale at the next write)
+    seen_kinds = set()
+    d2 = cj.dump('#include "xtl/xdynamic_bitset.hpp"\n#include <cstdint>\nnamespace xtl { namespace wx_br {\n'
+                 'inline bool use(xdynamic_bitset<std::uint64_t>& b, const xdynamic_bitset<std::uint64_t>& cb) { auto r = b[0]; auto cr = *cb.cbegin(); auto cr2 = *cb.begin(); return bool(r) && bool(cr) && bool(cr2); }\n} }\n', "xtl::")
+    rep.cmd(d2.cmd)
+    for c in d2.walk():
+        if c.get("kind") != "ClassTemplateSpecializationDecl" or c.get("name") != "xbitset_reference":
+            continue
+        ta = ir.template_args(c)
+        konst = ta[-1] in ("true", "1", "-1") if ta else None
+        fields = [f for f in ir.kids(c) if f.get("kind") == "FieldDecl"]
+        if not fields or konst in seen_kinds:
+            continue
+        seen_kinds.add(konst)
+        refs = [f for f in fields if ((f.get("type") or {}).get("desugaredQualType") or (f.get("type") or {}).get("qualType", "")).rstrip().endswith("&")]
+        lab = "xbitset_reference<..., %s>" % ("true" if konst else "false")
+        if refs:
+            rep.holds("C07.bitref", lab, "designates the block inside the container", where=d2.where(refs[0]), detail="member `%s` of type %s" % (
+                refs[0].get("name"), (refs[0].get("type") or {}).get("desugaredQualType") or (refs[0].get("type") or {}).get("qualType")))
+        else:
+            rep.violates("C07.bitref", lab, "designates the block inside the container", where=d2.where(fields[0]),
+                         detail="no member of reference type (%s): the reference holds a copy of the block, later writes to the bitset are not seen through it" % ", ".join(
+                             "%s: %s" % (f.get("name"), (f.get("type") or {}).get("desugaredQualType") or (f.get("type") or {}).get("qualType")) for f in fields))
+    if len(seen_kinds) < 2:
+        rep.inconclusive("C07.bitref", "xbitset_reference", "designates the block inside the container", detail="const and mutable instantiations found: %s" % sorted(map(str, seen_kinds)))
 
 
 def run(tier):
